@@ -18,7 +18,7 @@ TRUSTED_BASE = ['the pairing decisions (rough distances, cutoffs, passes, distan
                 'DeepHash digests: the driver uses its own SHA-256 (validated bit for bit in C06)']
 ASSUMPTIONS = ['NoSpoof and NoNumAlias jointly over (t1, t2) (findings F5, F6, F18)', 'tree-shaped inputs; dict keys str/int/None without double underscore; set members scalars']
 
-KNOBS = dict(cutoff_distance_for_pairs=[0.1, 0.3, 0.6, 1.0], cutoff_intersection_for_pairs=[0, 0.3, 0.7, 1.0], max_passes=[0, 1, 2, 10000000],
+KNOBS = dict(cutoff_distance_for_pairs=[0, 0.1, 0.3, 0.6, 1.0], cutoff_intersection_for_pairs=[0, 0.3, 0.7, 1.0], max_passes=[0, 1, 2, 10000000],
              cache_size=[0, 1, 50, 5000], threshold_to_diff_deeper=[0, 0.33, 0.9, 1])
 
 
@@ -167,6 +167,16 @@ def run(ctx, impl_only=False):
             ctx.violate({'t1': repr(s1), 't2': repr(s2), 'report_repetition': None, 'knobs': {}}, 'an input was modified')
         if len(ctx.samples) < 5:
             ctx.sample({'t1': repr(t1)[:120], 't2': repr(t2)[:120], 'equal_as_sets': nset_eq(t1, t2, False), 'equal_as_multisets': nset_eq(t1, t2, True)})
+    # ---- repaired: numpy booleans in an order-ignored list (finding F48)
+    try:
+        import numpy as np
+        ctx.evaluations += 1
+        ok = (bool(DeepDiff([np.True_, 2], [2], ignore_order=True)) and not DeepDiff([np.True_, 2], [2, np.True_], ignore_order=True)
+              and bool(DeepDiff([np.False_, 2], [2, np.True_], ignore_order=True, report_repetition=True)))
+        if not ok:
+            ctx.violate({'witness': 'F48'}, 'the repaired case F48 fails again')
+    except ImportError:
+        pass
     if ctx.build_ok and not impl_only and lines:
         ans = core.run_model(lines)
         for (case, a), m in zip(metas, ans):
